@@ -33,6 +33,7 @@ def scenarios(tier):
                 out.append({"versioned": False, "k": k, "op": ("replace_all", nb, n)})
     out.append({"versioned": False, "k": 0, "op": ("replace_all", 1, 1)})     # empty log: no snapshot is taken
     out.append({"versioned": False, "k": 0, "op": ("replace_all", 2, 1)})
+    out.append({"versioned": False, "k": 0, "op": ("patch_checked", 1, 1)})   # a log without commits has no agreed base
     out.append({"versioned": True, "k": 1, "op": ("replace_all", 1, 1)})
     out.append({"versioned": True, "k": 1, "op": ("patch_checked", 1, 1)})
     return out
@@ -58,6 +59,10 @@ def judge(sc, res, h, out):
         if len(pb) == len(pre):
             same = z3.And(*[b == O.leaf_byte(x) for b, x in zip(pb, pre)])
         if r.variant != "Ok":
+            if len(pre) == 0:
+                # no head to compare with: refusing with an error is a refusal like any other
+                unchanged(sc, res, h, v, key, "patch refused")
+                return
             h.check(res, False, "patch_checked returned an error", key + "error")
             return
         cp = r.fields[0].v
@@ -127,9 +132,20 @@ def run(tier, regenerate=True):
                                         "records_in_this_log_max": 2 if tier == "quick" else 3}
     dres = par.map_entries(lambda sc: c06_db.run_scenario(dprog, sc), dscen)
     FC.collect(chk, dres, c06.db_confirm)
+    # ---- server side: server_helpers::event_patch (rewind + merge_folder + rollback) over the real file-system log
+    from . import c07_server
+    sprog = H.load_program(c07_server.CRATES, regenerate=regenerate)
+    chk.extra["mir_regeneration_s"].update(sprog.timings)
+    sscen = c07_server.scenarios(tier)
+    chk.bounds["server_event_patch_scenarios"] = {"count": len(sscen), "records_in_log_max": 2 if tier == "quick" else 3,
+                                                  "patch_records": "1 (thorough: one scenario with 2)", "patch_event_bytes": c07_server.PLEN,
+                                                  "rewind_target": "none, any pool commit, or absent", "log_type": "Folder"}
+    sres = par.map_entries(lambda sc: c07_server.run_scenario(sprog, sc), sscen)
+    FC.collect(chk, sres, c07_server.confirm)
     chk.assumptions = [
         "file-system backend, and DatabaseEventLog over mirsym/sqlmodel.py (statements as built by the code, rows as lists, sqlite "
-        "itself not executed); the server-side event_patch and the client rewind_local orchestration are outside",
+        "itself not executed); server side: event_patch for a folder log on the file-system backend (other log types, whose merge "
+        "functions reduce or decode more, and the client rewind_local orchestration are outside)",
         "file API = vfs model (atomic operations, no I/O errors); rs_merkle = ideal-hash model (validated in C08)",
     ]
     return chk.finish(rule="one state = one path of one operation on a k-record log with symbolic checkpoint and patch")
@@ -145,6 +161,9 @@ def replay(path):
     if case.get("op") == "dblog_script":
         from . import c06
         bad = c06.db_confirm(case, nat)
+    elif case.get("op") == "server_event_patch":
+        from . import c07_server
+        bad = c07_server.confirm(case, nat)
     else:
         bad = confirm(case, nat)
     if bad:
